@@ -904,7 +904,7 @@ func (ttr *TagTreeReader) readTagValuesOnly(tagKey string,
 			treeOffset: 0,
 		}
 		tvi.loopThroughTagValues(currTvMap)
-		id = endOff
+		id += 4 // next metadata entry (endOff is an offset into the file, not into the metadata)
 	}
 	return nil
 }
